@@ -24,18 +24,25 @@ static void run_history(long idx)
     ZSTD_CCtx* c = ZSTD_createCCtx(); ZSTD_DCtx* d = ZSTD_createDCtx();
     uint8_t* x = (uint8_t*)malloc(g_maxSize + 64); size_t const cap = ZSTD_compressBound(g_maxSize) + 1024; uint8_t* a = (uint8_t*)malloc(cap); uint8_t* b = (uint8_t*)malloc(cap); uint8_t* out = (uint8_t*)malloc(g_maxSize + 64); uint8_t* dict = (uint8_t*)malloc(70000);
     size_t cumulative = 0; long windowWraps = 0;
-    int const sticky = (int)vr_u(&r, 3) == 0;          /* same parameters for the whole history: indices continue across frames */
+    int const sticky = (int)vr_u(&r, 3) == 0 || (idx % 6) == 2;          /* same parameters for the whole history: indices continue across frames */
     vparams P0; vp_random(&r, &P0, VP_SMALLWIN | VP_MT); if (P0.windowLog > 20) vp_level_only(&P0);
+    /* stratum "short index cycle" (1 history in 6): binary-tree strategies with the smallest chain tables (the overflow correction keeps the index modulo 2^(chainLog-1)), sticky
+     * parameters so that indices continue across frames of arbitrary sizes, low-entropy data: corrections fire at every residue of the cycle, 0 and 1 included */
+    int const shortCycle = (idx % 6) == 2; size_t scyc = 32;
+    if (shortCycle) { vp_level_only(&P0); P0.n = 0; P0.nbWorkers = 0; P0.level = 3; vp_add(&P0, ZSTD_c_compressionLevel, 3); vp_add(&P0, ZSTD_c_strategy, (int)vr_range(&r, 6, 9)); { int const cl = (int)vr_range(&r, 6, 8); scyc = (size_t)1 << (cl - 1); vp_add(&P0, ZSTD_c_chainLog, cl); } vp_add(&P0, ZSTD_c_hashLog, (int)vr_range(&r, 6, 12));
+        P0.windowLog = (int)vr_range(&r, 10, 16); vp_add(&P0, ZSTD_c_windowLog, P0.windowLog); vp_add(&P0, ZSTD_c_searchLog, (int)vr_range(&r, 1, 4)); vp_add(&P0, ZSTD_c_minMatch, (int)vr_range(&r, 3, 5)); vp_add(&P0, ZSTD_c_checksumFlag, 1); vp_redesc(&P0); v_stat("short_index_cycle_histories", 1); }
     for (int f = 0; f < nframes; f++) {
         vparams P; if (sticky) P = P0; else { vp_random(&r, &P, (vr_chance(&r, 1, 2) ? VP_SMALLWIN : 0) | VP_MT | VP_MAGICLESS); if (P.windowLog > 20) vp_level_only(&P); }
         if (P.nbWorkers && !vr_chance(&r, 1, 4)) { for (int i = 0; i < P.n; i++) if (P.p[i] == ZSTD_c_nbWorkers) P.v[i] = 0; P.nbWorkers = 0; }
-        int const fam = (int)vr_u(&r, DF_NB); size_t n = pick_size(&r, g_maxSize); if (P.windowLog && vr_chance(&r, 1, 2)) { size_t const w = (size_t)1 << P.windowLog; size_t const want = w * (2 + vr_u(&r, 6)); n = want < g_maxSize ? want : g_maxSize; }
+        int fam = (int)vr_u(&r, DF_NB); size_t n = pick_size(&r, g_maxSize); if (shortCycle) { static const int lowEnt[] = { DF_SMALLALPHA, DF_SMALLALPHA, DF_SMALLALPHA, DF_SMALLALPHA, DF_RUNS, DF_LZ }; fam = lowEnt[vr_u(&r, 6)]; n = 1 + vr_u64(&r, vr_chance(&r, 1, 2) ? 70000 : g_maxSize);
+            /* half of the frames end where the NEXT frame starts at index 0 or 1 modulo the cycle (indices start at 2 and continue across frames) */
+            if (vr_chance(&r, 1, 2) && n + scyc < g_maxSize) { size_t const want = (2 * scyc - 2 + vr_u(&r, 2) - (cumulative + n) % scyc) % scyc; n += want; } } if (!shortCycle && P.windowLog && vr_chance(&r, 1, 2)) { size_t const w = (size_t)1 << P.windowLog; size_t const want = w * (2 + vr_u(&r, 6)); n = want < g_maxSize ? want : g_maxSize; }
         if (P.nbWorkers && n < 600000) n = V_MIN(g_maxSize, (size_t)700000);
         int const litRing = !sticky && vr_chance(&r, 1, 8);      /* "literal-heavy ring" frame: window 128-256 KiB, several windows of match-free skewed bytes (blocks with > 64 KiB of Huffman literals), cut by
                                                                  * flushes at odd places: the decoder's ring buffer wraps with large literal sections in flight */
         if (litRing) { vp_level_only(&P); P.windowLog = (int)vr_range(&r, 17, 18); vp_add(&P, ZSTD_c_windowLog, P.windowLog); vp_redesc(&P); n = V_MIN(g_maxSize, ((size_t)1 << P.windowLog) * (3 + vr_u(&r, 4)) + vr_u(&r, 70000)); }
         gen_data(&r, x, n, litRing ? (vr_chance(&r, 1, 2) ? DF_SKEWED : DF_SMALLALPHA) : vr_chance(&r, 1, 3) ? DF_LONGREP : fam);
-        int const dictMode = vr_chance(&r, 1, 4) ? 1 + (int)vr_u(&r, 2) : 0; size_t const dl = dictMode ? 1 + vr_u(&r, 60000) : 0; if (dl) { gen_data(&r, dict, dl, fam); if (n > 64) memcpy(dict + dl - V_MIN(dl, n / 4), x, V_MIN(dl, n / 4)); if (dl >= 4 && dict[0] == 0x37 && dict[1] == 0xA4 && dict[2] == 0x30 && dict[3] == 0xEC) dict[0] ^= 1; }
+        int const dictMode = (!shortCycle && vr_chance(&r, 1, 4)) ? 1 + (int)vr_u(&r, 2) : 0; size_t const dl = dictMode ? 1 + vr_u(&r, 60000) : 0; if (dl) { gen_data(&r, dict, dl, fam); if (n > 64) memcpy(dict + dl - V_MIN(dl, n / 4), x, V_MIN(dl, n / 4)); if (dl >= 4 && dict[0] == 0x37 && dict[1] == 0xA4 && dict[2] == 0x30 && dict[3] == 0xEC) dict[0] ^= 1; }
         hscript S; h_gen_script(&r, n, &S, 0); int const oneShot = litRing ? 0 : (int)vr_u(&r, 3) == 0;
         if (litRing) { size_t pos = 0; S.nseg = 0; while (pos < n && S.nseg < 200) { size_t l = 30000 + vr_u(&r, 200000); if (l > n - pos) l = n - pos; pos += l; S.seg[S.nseg].len = l; S.seg[S.nseg].dir = pos == n ? ZSTD_e_end : ZSTD_e_flush; S.nseg++; } S.nOut = 1; S.outPat[0] = (size_t)1 << 22; S.api = 0; snprintf(S.desc, sizeof S.desc, "literal-ring nseg=%d flush-every-30..230K", S.nseg); v_stat("literal_heavy_ring_frames", 1); }
         char desc[600]; snprintf(desc, sizeof desc, "history %ld frame %d/%d (cumulative %zu MiB) n=%zu fam=%s params=[%s] %s dict=%d/%zu sticky=%d", idx, f, nframes, cumulative >> 20, n, v_df_name[fam], P.desc, oneShot ? "compress2" : S.desc, dictMode, dl, sticky);
